@@ -1,5 +1,6 @@
 import MemVerif.Lemmas.OrdList
 import MemVerif.Lemmas.C04Lists
+import MemVerif.Lemmas.SmallSearch
 import MemVerif.Model.Stack
 /-!
 # C16 — invalid releases that the debug checks cover are reported, valid ones never are
@@ -135,6 +136,105 @@ theorem C16_small_accepted_is_valid (cfg : Cfg) (hp : cfg.ptrCheck = true) (hd :
     ∃ (i : Nat) (c : Chunk), l.chunks[i]? = some c ∧ InArea l c p ∧ (p - (c.base + chunkOff)) / l.ns ∉ c.free := by
   obtain ⟨i, c, hc, ha, _, hnf⟩ := deallocate_shape cfg l l' p h
   exact ⟨i, c, hc, ha, hnf hp hd⟩
+
+/-- **Valid releases are never reported** (small list, every configuration, every cursor position): a node boundary inside
+the node area of a chunk, not on that chunk's free chain, is released normally — for every ring of chunks sorted by address
+with disjoint extents (completeness of the two-cursor chunk search, `findChunk_complete`). -/
+theorem C16_small_valid_never_reported (cfg : Cfg) (l : SmallList) (hR : SmallRing l) (i : Nat) (c : Chunk) (p : Nat)
+    (hc : l.chunks[i]? = some c) (harea : InArea l c p) (hbound : (p - (c.base + chunkOff)) % l.ns = 0)
+    (hlive : (p - (c.base + chunkOff)) / l.ns ∉ c.free) :
+    l.deallocate cfg p = .ok (l.deallocResult i c p) := by
+  have hfrom : l.fromAt (i + 1) p = true := by
+    rw [fromAt_iff]
+    exact ⟨c, by omega, by simpa using hc, harea.1, harea.2⟩
+  have hfind := findChunk_complete l hR p (i + 1) hfrom
+  unfold SmallList.deallocate
+  rw [hfind]
+  simp only [hc, hbound, ne_eq, not_true_eq_false, decide_false, Bool.and_false, Bool.false_eq_true, ↓reduceIte]
+  have : c.free.contains ((p - (c.base + chunkOff)) / l.ns) = false := by
+    simpa using hlive
+  simp only [this, Bool.and_false, Bool.false_eq_true, ↓reduceIte]
+
+/-- the ring invariant is kept by every successful release (only a free chain and the cursor change) -/
+theorem C16_small_ring_deallocate (l : SmallList) (hR : SmallRing l) (i : Nat) (c : Chunk) (p : Nat) (hc : l.chunks[i]? = some c) :
+    SmallRing (l.deallocResult i c p) := by
+  have hlen : i < l.chunks.length := by
+    rcases Nat.lt_or_ge i l.chunks.length with h | h
+    · exact h
+    · rw [List.getElem?_eq_none h] at hc; cases hc
+  have hget : ∀ (k : Nat) (x : Chunk), (l.deallocResult i c p).chunks[k]? = some x →
+      ∃ y, l.chunks[k]? = some y ∧ y.base = x.base ∧ y.noNodes = x.noNodes := by
+    intro k x hx
+    simp only [SmallList.deallocResult, List.getElem?_set] at hx
+    by_cases hk : i = k
+    · subst hk
+      simp only [hlen, ↓reduceIte, Option.some.injEq] at hx
+      subst hx; exact ⟨c, hc, rfl, rfl⟩
+    · simp only [hk, ↓reduceIte] at hx; exact ⟨x, hx, rfl, rfl⟩
+  refine ⟨?_, ?_, ?_, ?_⟩
+  · intro a b ca cb ha hb hab
+    obtain ⟨ya, hya, e1, e2⟩ := hget a ca ha
+    obtain ⟨yb, hyb, e3, _⟩ := hget b cb hb
+    have := hR.sorted a b ya yb hya hyb hab
+    simp only [Chunk.endOf, SmallList.deallocResult] at this ⊢
+    rw [← e1, ← e2, ← e3]; exact this
+  · -- the release cursor now points at the chunk that took the node
+    refine ⟨i + 1, ?_⟩
+    simp only [SmallList.posOf, SmallList.deallocResult]
+    have hne : c.base ≠ l.P := by
+      intro h
+      have := hR.proxyOut c (List.mem_of_getElem? hc)
+      unfold Chunk.endOf at this
+      have := chunkOff_pos
+      omega
+    simp only [hne, ↓reduceIte, Option.map_eq_some_iff]
+    refine ⟨i, ?_, rfl⟩
+    rw [List.findIdx?_eq_some_iff_getElem]
+    refine ⟨by simpa using hlen, by simp [List.getElem_set], ?_⟩
+    intro j hj
+    simp only [List.getElem_set, decide_eq_true_eq]
+    have hjl : j < l.chunks.length := by omega
+    have hne' : i ≠ j := by omega
+    simp only [hne', ↓reduceIte]
+    intro hb
+    have := hR.sorted j i _ c (List.getElem?_eq_getElem hjl) hc hj
+    unfold Chunk.endOf at this
+    have := chunkOff_pos
+    omega
+  · obtain ⟨a, ha⟩ := hR.cursorA
+    by_cases hP : l.allocChunk = l.P
+    · exact ⟨0, by simp [SmallList.posOf, SmallList.deallocResult, hP]⟩
+    · simp only [SmallList.posOf, hP, ↓reduceIte, Option.map_eq_some_iff] at ha
+      obtain ⟨k, hk, rfl⟩ := ha
+      obtain ⟨hkl, hkp, hkmin⟩ := List.findIdx?_eq_some_iff_getElem.1 hk
+      refine ⟨k + 1, ?_⟩
+      simp only [SmallList.posOf, SmallList.deallocResult, hP, ↓reduceIte, Option.map_eq_some_iff]
+      refine ⟨k, ?_, rfl⟩
+      rw [List.findIdx?_eq_some_iff_getElem]
+      refine ⟨by simpa using hkl, ?_, ?_⟩
+      · simp only [List.getElem_set, decide_eq_true_eq]
+        split
+        · rename_i hik; subst hik
+          have : l.chunks[i] = c := by
+            have := List.getElem?_eq_getElem hlen; rw [hc] at this; exact (Option.some.inj this).symm
+          rw [this] at hkp; simpa using hkp
+        · simpa using hkp
+      · intro j hj
+        simp only [List.getElem_set, decide_eq_true_eq]
+        have := hkmin j hj
+        split
+        · rename_i hij; subst hij
+          have hci : l.chunks[i] = c := by
+            have := List.getElem?_eq_getElem hlen; rw [hc] at this; exact (Option.some.inj this).symm
+          rw [hci] at this; simpa using this
+        · simpa using this
+  · intro x hx
+    simp only [SmallList.deallocResult] at hx ⊢
+    rcases List.mem_or_eq_of_mem_set hx with h | h
+    · exact hR.proxyOut x h
+    · subst h
+      have := hR.proxyOut c (List.mem_of_getElem? hc)
+      simpa [Chunk.endOf] using this
 
 /-- non-vacuity: one chunk of 3 nodes (8 bytes each) at 1000 (node area from 1032), node 1 free, cursors on the proxy —
 the state in which the unrepaired search did not terminate -/
